@@ -348,13 +348,20 @@ impl LdapResultExt {
             _ => return None,
         };
         let mut tags = t.expect_constructed()?.into_iter();
-        let rc = match parse_uint(
-            tags.next()?
-                .match_class(TagClass::Universal)
-                .and_then(|t| t.match_id(Types::Enumerated as u64))
-                .and_then(|t| t.expect_primitive())?
-                .as_slice(),
-        ) {
+        let rc_octets = tags
+            .next()?
+            .match_class(TagClass::Universal)
+            .and_then(|t| t.match_id(Types::Enumerated as u64))
+            .and_then(|t| t.expect_primitive())?;
+        // A result code has at least one content octet, isn't negative and fits the type we
+        // report it in; anything else would be handed to the caller as some other code.
+        if rc_octets.is_empty()
+            || rc_octets[0] & 0x80 != 0
+            || rc_octets.iter().skip_while(|o| **o == 0).count() > 4
+        {
+            return None;
+        }
+        let rc = match parse_uint(rc_octets.as_slice()) {
             Ok((_, rc)) => rc as u32,
             _ => return None,
         };
